@@ -35,6 +35,7 @@ def T3(x, y): return AND(hyp(x, y) * cosf(at2(y, x)) == x, hyp(x, y) * sinf(at2(
 def T4(x, y): return AND(-PI < at2(y, x), at2(y, x) <= PI)
 def T5(x, y): return AND(hyp(x, y) >= 0, hyp(x, y) * hyp(x, y) == x * x + y * y)
 def T6(a): return IMP(a >= 0, AND(sqrtf(a) >= 0, sqrtf(a) * sqrtf(a) == a))
+def T9(a, b): return (cosf(a) - cosf(b)) * (cosf(a) - cosf(b)) + (sinf(a) - sinf(b)) * (sinf(a) - sinf(b)) <= (a - b) * (a - b)      # chord_le_arc
 
 
 def install_trig(x, ctx):
@@ -211,6 +212,23 @@ def check_arc(ctx, x, g, h0, exits, target, center, circle=False):
                                       ITE(cw, total == -2 * PI, total == 2 * PI) if circle else T)), None, ["C10"], "post")
             L = x.as_num(st2, length).val
             ctx.check("the length handed to parametric() is the helix length hypot(radius·sweep, height) (constant speed)", IMP(e.cond, L == hyp(radius * total, tz - oz)), None, ["C10", "C12"], "post")
+            # C12: constant speed — two samples are never further apart than their share of the path length (chord <= arc), so consecutive samples
+            # θ = k/n, (k+1)/n are at most length/n apart.  Lemma instance T9 (chord_le_arc) at the two angles; small separate query.
+            th2 = fresh("theta2", R)
+            st3 = State(AND(e.cond, th2 >= 0, th2 <= 1), {}, e.heap, [])
+            p2 = call_closure(x, clo, th2, st3)
+            gx, gy, gz = [x.as_num(st3, v).val for v in p2.items]
+            a1, a2 = start + total * theta, start + total * th2
+            rr, cc1, cc2, ss1, ss2, tt, t1, t2, hh = z3.Reals("r_ c1_ c2_ s1_ s2_ tot_ t1_ t2_ h_")
+            hyps = [(cc1 - cc2) * (cc1 - cc2) + (ss1 - ss2) * (ss1 - ss2) <= (tt * t1 - tt * t2) * (tt * t1 - tt * t2)]
+            gen = (rr * cc1 - rr * cc2) * (rr * cc1 - rr * cc2) + (rr * ss1 - rr * ss2) * (rr * ss1 - rr * ss2) + (hh * t1 - hh * t2) * (hh * t1 - hh * t2) \
+                <= (t1 - t2) * (t1 - t2) * ((rr * tt) * (rr * tt) + hh * hh)
+            ctx.lemma("Geom.helix_lipschitz (polynomial consequence of chord_le_arc)", hyps, gen, ["C12"])
+            inst = z3.substitute(IMP(AND(*hyps), gen), (rr, radius), (cc1, cosf(a1)), (cc2, cosf(a2)), (ss1, sinf(a1)), (ss2, sinf(a2)), (tt, total), (t1, theta), (t2, th2), (hh, tz - oz))
+            x.assume.append(inst); x.assume.append(T9(a1, a2))
+            dist2 = sq(fx - gx) + sq(fy - gy) + sq(fz - gz)
+            ctx.check("C12 constant speed: |f(θ1) − f(θ2)|² <= (θ1 − θ2)²·length² (samples k/n apart are at most length/n apart)",
+                      IMP(AND(e.cond, theta >= 0, theta <= 1, th2 >= 0, th2 <= 1), dist2 <= sq(theta - th2) * (sq(radius * total) + sq(tz - oz))), None, ["C12"], "post")
     ctx.cover("reach: an arc is traced", OR(*[e.cond for e in exits if e.kind == "return"]), None, None,
               hint=None)
 
@@ -677,3 +695,15 @@ def u_parametric(ctx):
         ctx.check("each surviving vertex is converted with to_distance_mode() and traced with move(), with the caller's keyword parameters",
                   AND(v_same(events[4][1], row) if isinstance(events[4][1], VPoint) else F, v_same(events[5][1], events[4][2]), v_same(e.heap[events[5][2].oid]["$d"], h0[kw.oid]["$d"]) if isinstance(events[5][2], VRef) else F), e, None, "post")
     ctx.trust("np.linspace(0, 1, n+1): n+1 equally spaced samples from 0 to 1 inclusive (assumed)")
+
+
+@unit("C12 segment upper bound (arithmetic)", ["C12"])
+def u_c12_arith(ctx):
+    """pure arithmetic linking the proved pieces: n = max(2, ⌊10·L/res⌋) samples (parametric unit), consecutive samples at most L/n apart (arc unit,
+    constant speed), a vertex is kept as soon as the accumulated chord length exceeds 0.9·res (filter unit).  For a path at least one resolution long
+    every emitted segment — a straight chord, hence no longer than the accumulated length s — is shorter than (0.9 + 1/9)·res ≈ 1.011·res."""
+    res, L, n, d, s = z3.Reals("res L n d s")
+    hyp = [res > 0, L >= res, n >= 2, n * res <= 10 * L, 10 * L < (n + 1) * res, d >= 0, d * n <= L, s <= z3.Q(9, 10) * res + d]
+    ctx.lemma("no emitted segment of a constant-speed path (length >= resolution) exceeds 1.0112 x resolution", hyp, s <= z3.Q(10112, 10000) * res, ["C12"])
+    ctx.lemma("and consecutive samples are closer than resolution / 9", hyp, d * 9 <= res, ["C12"])
+    ctx.cover("the hypotheses are satisfiable", AND(*hyp))
